@@ -226,7 +226,8 @@ def sql_cases(rng, tier):
                 return "N"
             k = gen.tinfo(t)[2]
             if k == "str":
-                return "S" + rng.choice(["prefix_shared_" + x for x in ("A", "B", "C", "D", "", "AA", "B", "C")] + ["a", "b"])
+                return "S" + rng.choice(["prefix_shared_" + x for x in ("A", "B", "C", "D", "", "AA", "B", "C")] + ["a", "b"] +
+                                        (["a\x00", "a\x00\x00", "b\x00", "elevenchars\x00", "", "\x00"] if rng.chance(40) else []))
             if k == "int":
                 return "I%d" % rng.choice([1, 2, 2, 3])
             if k == "bool":
